@@ -15,16 +15,25 @@ satisfying `BufOK`, under `CfgOK`).
 namespace Bump.V
 open Bump Bump.RsM
 
+/-- the translator's shape of a model result `(vector, effects, some () | none)`: `none` is a *panic* -/
+def ofModel (m : VS × W × Option Unit) : VW × Outcome Unit :=
+  ((m.1, m.2.1), match m.2.2 with | some _ => .ok () | none => .panic)
+
+theorem toModel_ofModel (m : VS × W × Option Unit) : toModel (ofModel m) = m := by
+  obtain ⟨v, w, o⟩ := m
+  cases o <;> rfl
+
 theorem copyFrom_len (c : Cfg) (v : VS) (src : List (Option Elem)) (dst : Nat) (w : W) : (v.copyFrom c src dst w).1.len = v.len := by
   unfold VS.copyFrom
   split
   · rfl
   · simp only [VS.need]
 
-/-- `extend_from_slice_copy(other)`: reserve, one copy, the length store — the model's `extendFromSliceCopy` -/
-theorem gen_vec_extend_from_slice_copy (c : Cfg) (src : List Elem) (v : VS) (w : W) (hc : CfgOK c) (hb : BufOK c v)
+/-- `extend_from_slice_copy(other)`: reserve, one copy, the length store — the model's `extendFromSliceCopy` (it ends `ok` or
+panics; its `bad` branches are never taken) -/
+theorem gen_vec_extend_from_slice_copy_raw (c : Cfg) (src : List Elem) (v : VS) (w : W) (hc : CfgOK c) (hb : BufOK c v)
     (hl : v.len ≤ capOf c v) :
-    toModel (Gen.Fn.vec_extend_from_slice_copy c (src.map some) (v, w)) = extendFromSliceCopy c v src w := by
+    Gen.Fn.vec_extend_from_slice_copy c (src.map some) (v, w) = ofModel (extendFromSliceCopy c v src w) := by
   unfold Gen.Fn.vec_extend_from_slice_copy extendFromSliceCopy
   rw [gen_vec_reserve]
   simp only [List.length_map]
@@ -38,7 +47,12 @@ theorem gen_vec_extend_from_slice_copy (c : Cfg) (src : List Elem) (v : VS) (w :
     simp only [bindW, Gen.Fn.vec_extend_from_slice_copy_unchecked, gen_vec_len, gen_vec_capacity, pureW, List.length_map, h1, if_true,
       h2, decide_true, copy_in, gen_vec_set_len]
     rw [List.take_of_length_le (by simp)]
-    simp only [toModel, copyFrom_len]
+    simp only [ofModel, copyFrom_len]
+
+theorem gen_vec_extend_from_slice_copy (c : Cfg) (src : List Elem) (v : VS) (w : W) (hc : CfgOK c) (hb : BufOK c v)
+    (hl : v.len ≤ capOf c v) :
+    toModel (Gen.Fn.vec_extend_from_slice_copy c (src.map some) (v, w)) = extendFromSliceCopy c v src w := by
+  rw [gen_vec_extend_from_slice_copy_raw c src v w hc hb hl, toModel_ofModel]
 
 /-- `extend_from_slice_copy_unchecked(other)` on a vector with room: the copy and the length store -/
 theorem gen_vec_extend_from_slice_copy_unchecked (c : Cfg) (src : List (Option Elem)) (v : VS) (w : W)
@@ -174,10 +188,6 @@ theorem dropRestP_exhausted (c : Cfg) (w : W) (it : It) (h : it.remaining = 0) :
     have : l = [] := by simpa [It.remaining] using h
     simp [dropRestP, It.dropRest, this, dropAll]
 
-/-- the translator's shape of a model result `(vector, effects, some () | none)`: `none` is a *panic* -/
-def ofModel (m : VS × W × Option Unit) : VW × Outcome Unit :=
-  ((m.1, m.2.1), match m.2.2 with | some _ => .ok () | none => .panic)
-
 theorem extend_reserve_none {c : Cfg} {v : VS} {it : It} {w : W} (h : rawReserve c v v.len it.hintLo = none) :
     extend c v it w = (v, it.dropRest c w, none) := by
   unfold extend extendRef; rw [h]; rfl
@@ -223,10 +233,6 @@ theorem gen_vec_extend_raw (c : Cfg) (hc : CfgOK c) (it : It) (v : VS) (xs : Lis
     | err => simp [loopView] at h4
     | envBad => simp [loopView] at h4
 
-theorem toModel_ofModel (m : VS × W × Option Unit) : toModel (ofModel m) = m := by
-  obtain ⟨v, w, o⟩ := m
-  cases o <;> rfl
-
 theorem gen_vec_extend (c : Cfg) (hc : CfgOK c) (it : It) (v : VS) (xs : List Elem) (w : W) (hr : RepB c v xs) :
     toModel (Gen.Fn.vec_extend c it (v, w)) = extend c v it w := by
   rw [gen_vec_extend_raw c hc it v xs w hr, toModel_ofModel]
@@ -265,7 +271,40 @@ theorem gen_vec_clone (c : Cfg) (hc : CfgOK c) (v : VS) (w : W) (hl : v.len < US
     rcases extend c n (It.cloned v.owned) w with ⟨v', w', o⟩
     cases o <;> simp [ofModel, bindU, builtView, drop_vec]
 
+/-! ## one-line wrappers: `extend_from_slice`, `io::Write` -/
+
+/-- `extend_from_slice(other)` is `extend(other.iter().cloned())`: the model's `extend` over `It.cloned` -/
+theorem gen_vec_extend_from_slice (c : Cfg) (hc : CfgOK c) (src : List Elem) (v : VS) (xs : List Elem) (w : W) (hr : RepB c v xs) :
+    toModel (Gen.Fn.vec_extend_from_slice c src (v, w)) = extend c v (.cloned src) w := by
+  unfold Gen.Fn.vec_extend_from_slice
+  rw [gen_vec_extend_raw c hc _ v xs w hr]
+  rcases extend c v (It.cloned src) w with ⟨v', w', o⟩
+  cases o <;> rfl
+
+/-- `io::Write::write(buf)` for `Vec<u8>`: `extend_from_slice_copy(buf)`, then `Ok(buf.len())` — the model's `ioWrite` -/
+theorem gen_vec_io_write (c : Cfg) (src : List Elem) (v : VS) (w : W) (hc : CfgOK c) (hb : BufOK c v) (hl : v.len ≤ capOf c v) :
+    (match Gen.Fn.vec_io_write c (src.map some) (v, w) with
+     | (s, .ok n) => (s.1, s.2, some n)
+     | (s, _) => (s.1, s.2, none)) = ioWrite c v src w := by
+  unfold Gen.Fn.vec_io_write ioWrite
+  rw [gen_vec_extend_from_slice_copy_raw c src v w hc hb hl]
+  rcases extendFromSliceCopy c v src w with ⟨v', w', o⟩
+  cases o <;> simp [ofModel, bindW]
+
+/-- `write_all(buf)` is `extend_from_slice_copy(buf)`; `flush` does nothing -/
+theorem gen_vec_io_write_all (c : Cfg) (src : List Elem) (v : VS) (w : W) (hc : CfgOK c) (hb : BufOK c v) (hl : v.len ≤ capOf c v) :
+    toModel (Gen.Fn.vec_io_write_all c (src.map some) (v, w)) = extendFromSliceCopy c v src w := by
+  unfold Gen.Fn.vec_io_write_all
+  rw [gen_vec_extend_from_slice_copy_raw c src v w hc hb hl]
+  rcases extendFromSliceCopy c v src w with ⟨v', w', o⟩
+  cases o <;> rfl
+
+theorem gen_vec_io_flush (c : Cfg) (s : VW) : Gen.Fn.vec_io_flush c s = (s, .ok ()) := rfl
+
 #print axioms gen_vec_extend_from_slice_copy
+#print axioms gen_vec_extend_from_slice
+#print axioms gen_vec_io_write
+#print axioms gen_vec_io_write_all
 #print axioms gen_vec_extend
 #print axioms gen_vec_from_iter_in
 #print axioms gen_vec_clone
